@@ -27,6 +27,7 @@ func excluded() map[string]bool {
 func gen(rt *rapid.T) lang.Case {
 	p := lang.FullProfile()
 	p.Moods = true
+	p.ObserveAll = 60
 	p.Exclude = excluded()
 	return lang.GenCase(rt, p)
 }
